@@ -557,8 +557,32 @@ theorem nitf_without_family_des_rejects (h : ∀ e ∈ d.des, neutral e = true) 
   · simp [sicdIsA, sicdDetails, seen, h1]
   · simp [openProduct, siddDetails, seen, h2]
 
-/-- complex-like image segment present and no integer SAR segment in front of the decision (Spec.Opener.finalAttempt) -/
-def complexLike (d : Desc) : Bool := !d.images.any isSiddSeg && d.images.any (· == .sicdSeg)
+/-- what the fallback complex opener decides on the image segments of `d`, examined in file order -/
+def fallbackScan (d : Desc) : Decision := scanBands (d.images.map Img.hdr) false
+
+/-- the fallback complex opener takes the file: some image segment counts as complex and none makes extract_sicd refuse -/
+def complexLike (d : Desc) : Bool := fallbackScan d == .accept .complexNitf
+
+theorem scanBands_cases (l : List ImgHdr) (f : Bool) :
+    scanBands l f = .accept .complexNitf ∨ scanBands l f = .reject ∨ scanBands l f = .raises := by
+  induction l generalizing f with
+  | nil => cases f <;> simp [scanBands]
+  | cons h t ih => simp only [scanBands]; cases checkBand h <;> simp [ih]
+
+/-- on the three image classes of the writer models the scan is the rule of the first model: an integer SAR segment
+    (extract_sicd refuses) rejects the file, otherwise a complex I/Q segment is taken -/
+theorem scanBands_classes (l : List Img) (hl : ∀ x ∈ l, ∀ h, x ≠ .gen h) (f : Bool) :
+    scanBands (l.map Img.hdr) f =
+      (if l.any isSiddSeg then .reject else if f || l.any (· == .sicdSeg) then .accept .complexNitf else .reject) := by
+  induction l generalizing f with
+  | nil => cases f <;> simp [scanBands]
+  | cons x t ih =>
+    have ih' := ih (fun y hy => hl y (List.mem_cons_of_mem _ hy))
+    cases x with
+    | gen h => exact absurd rfl (hl _ (by simp) h)
+    | sicdSeg => simp [scanBands, checkBand, Img.hdr, ih', isSiddSeg, orderIQ, orderMP, validOrder]
+    | siddSeg k => simp [scanBands, checkBand, Img.hdr, isSiddSeg]
+    | other => simp [scanBands, checkBand, Img.hdr, ih', isSiddSeg]
 
 /-- **NITF 2.0 fallback with the repaired reader** (`extract_sicd` accepts the 2.0 subheader): for a 2.0 container without
     SICD / SIDD document handed over as a path in a `writtenPlace`, open_complex returns the fallback ComplexNITFReader exactly
@@ -567,7 +591,7 @@ def complexLike (d : Desc) : Bool := !d.images.any isSiddSeg && d.images.any (·
     fallback reader if there is one and the general NITF reader otherwise - for any number of symbol and label segments and
     either state of the offset defect -/
 theorem nitf20_fallback (w : World) (deep : Vendor → Decision) (hm : d.magic = .nitf20) (hi : d.images ≠ [])
-    (h : ∀ e ∈ d.des, neutral e = true) (hrep : p.nitf20SarRaises = false)
+    (hnc : fallbackScan d ≠ .raises) (h : ∀ e ∈ d.des, neutral e = true) (hrep : p.nitf20SarRaises = false)
     (ha : w.arg = .path) (hok : worldOk w d = true) (hp : writtenPlace w = true) :
     openComplexV p w d deep = (if complexLike d then .accept .complexNitf else .reject) ∧
     openProductV p w d deep = .reject ∧ openPhaseHistoryV p w d deep = .reject ∧ openReceivedV p w d deep = .reject ∧
@@ -586,8 +610,12 @@ theorem nitf20_fallback (w : World) (deep : Vendor → Decision) (hm : d.magic =
     have e1 : isAV p w d deep .finalAttempt = finalDeep p d := by
       simp [isAV, isA, tab, firstFiring, evalCond, evalAtom, ha, vendorDeep]
     rw [e1]
-    cases h1 : d.images.any isSiddSeg <;> cases h2 : d.images.any (· == .sicdSeg) <;>
-      simp [finalDeep, hrep, finalAttempt, nitfOk, hm, complexLike, h1, h2]
+    have e2 : finalDeep p d = fallbackScan d := by simp [finalDeep, hrep, finalAttempt, nitfOk, hm, fallbackScan]
+    rw [e2]
+    rcases scanBands_cases (d.images.map Img.hdr) false with h1 | h1 | h1
+    · simp [complexLike, fallbackScan, h1]
+    · simp [complexLike, fallbackScan, h1]
+    · exact absurd h1 hnc
   have hall : ∀ v ∈ complexOrder, isAV p w d deep v = .reject := by
     intro v hv
     rcases complexOrder_ok.2.2 v hv with h1 | h1 | h1
@@ -627,6 +655,133 @@ theorem symbols_labels_irrelevant (s l : Nat) (hrep : p.nitf20SkipsSymLab = fals
     simp [seen, desSeen, hrep, sicdIsA, sicdDetails, containerOk, openProduct, siddDetails, finalDeep, finalAttempt, openGeneral]
 
 end nitf20
+
+/-! ## which image segments the fallback complex opener takes; general NITF files -/
+
+section bands
+
+-- unfold the band chain
+macro "band_simp" : tactic =>
+  `(tactic| simp_all [runBand, bandTab, evalBCond, evalBAtom, checkBand, validOrder, realValued])
+
+/-- the regenerated chain of `_check_band_details` computes `checkBand`, the function `finalAttempt` scans with -/
+theorem runBand_bandTab (h : ImgHdr) : runBand h bandTab false = checkBand h := by
+  obtain ⟨sar, pv, bands⟩ := h
+  cases sar
+  · simp [runBand, bandTab, evalBCond, evalBAtom, checkBand]
+  · rcases bands with _ | ⟨x, _ | ⟨y, rest⟩⟩
+    · cases pv <;> band_simp
+    · cases pv <;> band_simp
+    · have hlen : (rest.length + 1 + 1) % 2 = rest.length % 2 := by omega
+      by_cases hodd : rest.length % 2 = 1
+      · cases pv <;> band_simp
+      · cases hiq : orderIQ x y <;> cases hmp : orderMP x y
+        · cases pv <;> band_simp
+        all_goals
+          cases rest with
+          | nil => cases pv <;> band_simp
+          | cons z rest' => cases hf : pairsFollow x y (z :: rest') <;> cases pv <;> band_simp
+
+/-- an even number of bands labelled as complex pairs that fit the PVTYPE: the first pair is I/Q, Q/I, M/P or P/M and, when there
+    are more than two bands, every later pair repeats it and the PVTYPE fits the labelling (I/Q: SI or R; M/P: R - INT never gets
+    here, extract_sicd refuses it) -/
+def pairedOk (pv : PvType) : List SubCat → Bool
+  | x :: y :: rest =>
+    validOrder x y && (rest.isEmpty ||
+      (pairsFollow x y rest && (!orderIQ x y || pv == .si || pv == .r) && (!orderMP x y || pv == .r)))
+  | _ => false
+
+/-- **exactly which image segments count as complex**: category SAR / SARIQ, PVTYPE C, R or SI, and either an odd number of bands
+    with PVTYPE C, or an even number of bands that are `pairedOk` -/
+theorem checkBand_take_iff (h : ImgHdr) :
+    checkBand h = .take ↔
+      h.sar = true ∧ (h.pv = .c ∨ h.pv = .r ∨ h.pv = .si) ∧
+      ((h.bands.length % 2 = 1 ∧ h.pv = .c) ∨ (h.bands.length % 2 = 0 ∧ pairedOk h.pv h.bands = true)) := by
+  obtain ⟨sar, pv, bands⟩ := h
+  cases sar
+  · simp [checkBand]
+  · rcases bands with _ | ⟨x, _ | ⟨y, rest⟩⟩
+    · cases pv <;> simp [checkBand, pairedOk]
+    · cases pv <;> simp [checkBand, pairedOk]
+    · have hlen : (rest.length + 1 + 1) % 2 = rest.length % 2 := by omega
+      by_cases hodd : rest.length % 2 = 1
+      · have h0 : ¬ rest.length % 2 = 0 := by omega
+        cases pv <;> simp_all [checkBand, pairedOk]
+      · have h0 : rest.length % 2 = 0 := by omega
+        cases hiq : orderIQ x y <;> cases hmp : orderMP x y
+        · cases pv <;> simp_all [checkBand, validOrder, pairedOk]
+        all_goals
+          cases rest with
+          | nil => cases pv <;> simp_all [checkBand, validOrder, pairedOk]
+          | cons z rest' => cases hf : pairsFollow x y (z :: rest') <;> cases pv <;> simp_all [checkBand, validOrder, pairedOk]
+
+/-- a real-valued image segment is never taken: it is passed over, or (PVTYPE INT / B in a SAR category) makes extract_sicd refuse -/
+theorem checkBand_real (h : ImgHdr) (hr : realValued h = true) : checkBand h = .skip ∨ checkBand h = .refuse := by
+  obtain ⟨sar, pv, bands⟩ := h
+  cases sar
+  · simp [checkBand]
+  · rcases bands with _ | ⟨x, _ | ⟨y, rest⟩⟩
+    · simp [realValued] at hr
+    · cases pv <;> simp_all [checkBand, realValued]
+    · have hlen : (rest.length + 1 + 1) % 2 = rest.length % 2 := by omega
+      by_cases hodd : rest.length % 2 = 1
+      · cases pv <;> simp_all [checkBand, realValued]
+      · have h0 : rest.length % 2 = 0 := by omega
+        cases hv : validOrder x y <;> cases pv <;> simp_all [checkBand, realValued]
+
+theorem scanBands_real (l : List ImgHdr) (hl : ∀ h ∈ l, realValued h = true) : scanBands l false = .reject := by
+  induction l with
+  | nil => rfl
+  | cons h t ih =>
+    have ih' := ih (fun x hx => hl x (List.mem_cons_of_mem _ hx))
+    rcases checkBand_real h (hl h (by simp)) with hc | hc <;> simp [scanBands, hc, ih']
+
+/-- **general NITF files**: a NITF 2.1 container with at least one image segment, all of whose image segments are real-valued
+    (PVTYPE INT / B / SI / R, no complex band pairing - whatever their category, band count, NBPP), whose DES carry no SICD / SIDD
+    document, handed over as a path or file object in a `writtenPlace`: every complex opener rejects it - for any registration
+    order, the fallback opener included - open_product / open_phase_history / open_received reject, open_general returns the
+    general NITF reader and so does `sarpy.io.open` -/
+theorem general_nitf_exclusive (p : Policy2) (w : World) (d : Desc) (deep : Vendor → Decision)
+    (order : List Vendor) (hs : .sicd ∈ order) (hsio : .sio ∈ order) (ho : ∀ v ∈ order, v.foreign = true ∨ v = .sicd ∨ v = .sio)
+    (hm : d.magic = .nitf21) (hi : d.images ≠ []) (hreal : ∀ x ∈ d.images, realValued x.hdr = true)
+    (hdes : ∀ e ∈ d.des, neutral e = true) (hok : worldOk w d = true) (hp : writtenPlace w = true) :
+    openComplexWith order p w d deep = .reject ∧ openProductV p w d deep = .reject ∧
+    openPhaseHistoryV p w d deep = .reject ∧ openReceivedV p w d deep = .reject ∧
+    openGeneralV p w d deep = .accept .nitf ∧ (w.arg = .path → openTopV p w d deep = .accept .nitf) := by
+  have hne : d.magic ≠ .none := by rw [hm]; decide
+  have h20 : d.magic ≠ .nitf20 := by rw [hm]; decide
+  obtain ⟨e1, e2, e3, e4, e5, e6⟩ := full_eq_model p w d deep order hs hsio ho hne h20 hok hp
+  obtain ⟨hsicd, hprod⟩ := nitf_without_family_des_rejects p d hdes
+  rw [seen_eq p d h20] at hsicd hprod
+  have hscan : scanBands (d.images.map Img.hdr) false = .reject :=
+    scanBands_real _ (by
+      intro h hh
+      obtain ⟨x, hx, rfl⟩ := List.mem_map.1 hh
+      exact hreal x hx)
+  have hfin : ∀ a, finalAttempt a d = .reject := by
+    intro a; cases a <;> simp [finalAttempt, hscan]
+  have hcx : ∀ a, openComplex a d = .reject := by
+    intro a; cases a <;> simp [openComplex, cascade, hsicd, sioIsA, hm, hfin]
+  have hph : ∀ a, openPhaseHistory a d = .reject := by intro a; simp [openPhaseHistory, hm]
+  have hrc : openReceived d = .reject := by simp [openReceived, hm]
+  have hge : openGeneral d = .accept .nitf := by
+    cases hd : d.images with
+    | nil => exact absurd hd hi
+    | cons _ _ => simp [openGeneral, nitfOk, hm, hd]
+  refine ⟨by rw [e1]; exact hcx _, by rw [e2]; exact hprod, by rw [e3]; exact hph _, by rw [e4]; exact hrc, by rw [e5]; exact hge, ?_⟩
+  intro ha
+  rw [e6 ha]
+  simp [openTop, cascade, hcx, hprod, hph, hrc, hge]
+
+/-- the seeded regression as a witness: one float32 band in a SAR category is real-valued and passed over; the same header with
+    PVTYPE C is taken -/
+example : realValued ⟨true, .r, [.other]⟩ = true ∧ checkBand ⟨true, .r, [.other]⟩ = .skip ∧ checkBand ⟨true, .c, [.other]⟩ = .take := by
+  decide
+example : checkBand ⟨true, .r, [.other, .other, .other]⟩ = .skip ∧ checkBand ⟨true, .r, [.m, .p, .m, .p]⟩ = .take ∧
+    checkBand ⟨true, .si, [.m, .p, .m, .p]⟩ = .muddled ∧ checkBand ⟨true, .int, [.m, .p]⟩ = .refuse ∧
+    checkBand ⟨false, .c, [.other]⟩ = .skip := by decide
+
+end bands
 
 /-! ## satisfiable instances and witnesses -/
 
